@@ -254,7 +254,8 @@ class Model(LPModel):
 
             eye_indices = [item for inner in primal.qmat for item in inner]
             eye_block = dual_lp.linear[eye_indices, :]
-            if len(eye_block.data) + 1 == len(eye_block.indptr):
+            if (len(eye_block.data) + 1 == len(eye_block.indptr) and
+                    (eye_block.data == 1).all()):
                 lin_indices = [ind for ind in range(primal.linear.shape[1])
                                if ind not in eye_indices]
                 linear = dual_lp.linear[lin_indices, :]
